@@ -264,14 +264,19 @@ PLANS["C18"] = Plan(
 
 PLANS["C20"] = Plan(
     "C20", "other",
-    functions=["moptipyapps.order1d.distances:swap_distance", "moptipyapps.order1d.instance:Instance.__init__#distances"],
+    functions=["moptipyapps.order1d.distances:swap_distance", "moptipyapps.order1d.instance:Instance.__init__#distances",
+               "moptipyapps.order1d.instance:Instance.__init__#flows"],
     bounded=[bounded.order1d.harness],
     explanation="proved: the distance matrix built by order1d.Instance.__init__ is |i - j| (block contract on the real loops); "
+                "the flow matrix (block contract on the real double loop, the float expression abstracted as one function "
+                "of the rank) is zero on the diagonal and beyond the horizon and is a function of the rank alone, so "
+                "equally ranked neighbours get equal flows; "
                 "swap_distance never leaves its arrays, reads the scratch flags only after writing them, returns a value "
                 "in [0, n] (for every x with entries in range). bounded/exhaustive: swap_distance == minimum number of "
                 "transpositions (BFS) for all permutations up to length 6 (thorough: 7); instance construction clauses "
                 "(merging, representative index, |i-j|, flow clauses) on generated sequences with duplicates and ties",
-    assumptions=["E4: numpy argsort / fancy indexing yield a permutation for permutation inputs", "A4 minimum-transposition "
+    assumptions=["E4: numpy argsort / fancy indexing yield a permutation for permutation inputs", "monotonicity of the flows in the rank rests on monotonicity of x -> round(m * x ** p) "
+                 "(float pow / round, external): sampled only", "A4 minimum-transposition "
                  "theorem is not used: the minimum is computed by breadth-first search in the bounded part",
                  "termination of the cycle walk not proved"],
 )
